@@ -84,8 +84,8 @@ TEXT.update({
                     'build_combinations ensures built) + the trigger key, output = the output modifiers with aliases replaced by the keys chosen on the trigger side + the output key; a row yields, per combination, one pair per '
                     'non-space letter in letter order (letters = the characters of the string, vstd knows chars().collect()), trigger = combination keys + the key in the letter\'s column of the physical row, output = output '
                     'modifiers + the Shift the character needs (right Shift iff the trigger contains right Shift) + the key of the character. The tables themselves (94 characters, 5 rows) are compared with the US-QWERTY layout '
-                    'for every Unicode scalar value and every row on every run (enumerative, complete). The alias table is tied to the source (find_alias_mappings ensures table_for: for every alias name exactly the definitions written for it, in source order); convert_single / convert_row also ensure the repeat mode (Special keys and row repeat letters converted like outputs) and the absorbing list of each mapping they produce. The repeat-only pass is under contract too (convert ensures convert_full): FromSet::new yields the modifiers in ascending order + the final key, so two triggers share a table key exactly when they are the same trigger set (same final key, same modifiers in any order; lemma_fs_same over an assumed contract of sort); the trigger table lists exactly the first-pass mappings, each under its key; adjust_repeats ensures ar_rel: for each combination in order the first-pass mappings with the same trigger set get the entry\'s repeat mode (Special keys with aliases replaced), or an identity mapping is appended if there is none - so the repeat modes of the FINAL layout are determined. Not under contract: spelling equivalence (parser) and WHEN the converter accepts (all contracts read "r is Ok ==> ..."). '
-                    'Bounded stand-in for those two (it also re-checks everything else), never counted as proof: a fixed set of generated layout programs (150,000 quick / 4,000,000 thorough; same programs on every run) is loaded through the real parser + converter and compared, '
+                    'for every Unicode scalar value and every row on every run (enumerative, complete). The alias table is tied to the source (find_alias_mappings ensures table_for: for every alias name exactly the definitions written for it, in source order); convert_single / convert_row also ensure the repeat mode (Special keys and row repeat letters converted like outputs) and the absorbing list of each mapping they produce. The repeat-only pass is under contract too (convert ensures convert_full): FromSet::new yields the modifiers in ascending order + the final key, so two triggers share a table key exactly when they are the same trigger set (same final key, same modifiers in any order; lemma_fs_same over an assumed contract of sort); the trigger table lists exactly the first-pass mappings, each under its key; adjust_repeats ensures ar_rel: for each combination in order the first-pass mappings with the same trigger set get the entry\'s repeat mode (Special keys with aliases replaced), or an identity mapping is appended if there is none - so the repeat modes of the FINAL layout are determined. Acceptance is under contract as well: convert ensures `r is Err ==> convert_rejects(f)` (build_combinations, convert_single, convert_row, adjust_repeats, convert_mapping, check_mapping_is_usable each ensure that they refuse only for a listed reason). Not under contract: spelling equivalence (it lives in the parser, which is verified for panic-freedom only). '
+                    'Bounded stand-in for that (it also re-checks everything else, acceptance included), never counted as proof: a fixed set of generated layout programs (150,000 quick / 4,000,000 thorough; same programs on every run) is loaded through the real parser + converter and compared, '
                     'mapping by mapping and acceptance included, with the expansion written out by hand in the harness (extra programs_bounded).'),
         design_ref='6.13', level_note=CONV_NOTE + ' Partial: the assumptions list the clauses that are not under contract.'),
     'C17': dict(
